@@ -6,6 +6,7 @@ import MalVerif.Model.Gen
 import MalVerif.Model.MState
 import MalVerif.Model.Serial
 import MalVerif.Model.AGSerial
+import MalVerif.Model.Compiler.Parser
 open Lean MalVerif
 
 namespace Drv
@@ -450,6 +451,71 @@ def opClasses (j : Json) : R Json := do
               ("assocs", jsonOfList (fun (c : MS.AssocClass) => Json.arr #[jS c.cls, jS c.lf, jS c.ltype, on c.lmax,
                  jS c.rf, jS c.rtype, on c.rmax]) (MS.assocClasses L))]
 
+
+/-! ### the MAL compiler (C04, C17) -/
+open Mal in
+def ttcToJson : TTC → Json
+  | .func n args => jO [("type", jS "function"), ("name", jS n), ("arguments", jsonOfList jS args)]
+  | .num v => jO [("type", jS "number"), ("value", jS v)]
+  | .bin op l r => jO [("type", jS op), ("lhs", ttcToJson l), ("rhs", ttcToJson r)]
+
+open Mal in
+def cspecToJson (s : CSpec) : Json :=
+  let metaJ (m : Meta) : Json := jO (m.map (fun e => (e.1, jS e.2)))
+  let on (o : Option Nat) : Json := match o with | some n => jN n | none => Json.null
+  jO [("formatVersion", jS "1.0.0"),
+      ("defines", jO (s.defines.map (fun e => (e.1, jS e.2)))),
+      ("categories", jsonOfList (fun (c : String × Meta) => jO [("name", jS c.1), ("meta", metaJ c.2)]) s.categories),
+      ("assets", jsonOfList (fun (a : CAsset) => jO [("name", jS a.name), ("meta", metaJ a.metaD), ("category", jS a.category),
+          ("isAbstract", jB a.isAbstract), ("superAsset", jOptS a.superAsset),
+          ("variables", jsonOfList (fun (v : String × Expr) => jO [("name", jS v.1), ("stepExpression", exprToJson v.2)]) a.variables),
+          ("attackSteps", jsonOfList (fun (st : CStep) => jO [("name", jS st.name), ("meta", metaJ st.metaD), ("type", jS st.type),
+              ("tags", jsonOfList jS st.tags),
+              ("risk", match st.risk with
+                | some (c, i, a) => jO [("isConfidentiality", jB c), ("isIntegrity", jB i), ("isAvailability", jB a)]
+                | none => Json.null),
+              ("ttc", match st.ttc with | some t => ttcToJson t | none => Json.null),
+              ("requires", match st.requires with
+                | some l => jO [("overrides", jB true), ("stepExpressions", jsonOfList exprToJson l)] | none => Json.null),
+              ("reaches", match st.reaches with
+                | some (o, l) => jO [("overrides", jB o), ("stepExpressions", jsonOfList exprToJson l)] | none => Json.null)]) a.steps)]) s.assets),
+      ("associations", jsonOfList (fun (a : CAssoc) => jO [("name", jS a.name), ("meta", metaJ a.metaD),
+          ("leftAsset", jS a.leftAsset), ("leftField", jS a.leftField),
+          ("leftMultiplicity", jO [("min", jN a.leftMin), ("max", on a.leftMax)]),
+          ("rightAsset", jS a.rightAsset), ("rightField", jS a.rightField),
+          ("rightMultiplicity", jO [("min", jN a.rightMin), ("max", on a.rightMax)])]) s.associations)]
+
+def tokName (t : Mal.Tok) : String :=
+  match t with
+  | .str r => "STRING:" ++ r | .int s => "INT:" ++ s | .float s => "FLOAT:" ++ s | .id s => "ID:" ++ s
+  | .kwAbstract => "ABSTRACT" | .kwAsset => "ASSET" | .kwAssociations => "ASSOCIATIONS" | .kwExtends => "EXTENDS"
+  | .kwInclude => "INCLUDE" | .kwCategory => "CATEGORY" | .kwInfo => "INFO" | .kwLet => "LET"
+  | .exists_ => "EXISTS" | .c => "C" | .i => "I" | .a => "A"
+  | .lparen => "LPAREN" | .rparen => "RPAREN" | .lcurly => "LCURLY" | .rcurly => "RCURLY" | .hash => "HASH"
+  | .colon => "COLON" | .larrow => "LARROW" | .rarrow => "RARROW" | .lsquare => "LSQUARE" | .rsquare => "RSQUARE"
+  | .star => "STAR" | .assign => "ASSIGN" | .minus => "MINUS" | .intersect => "INTERSECT" | .union => "UNION"
+  | .range => "RANGE" | .dot => "DOT" | .and_ => "AND" | .or_ => "OR" | .notExists => "NOTEXISTS" | .at => "AT"
+  | .requires => "REQUIRES" | .inherits => "INHERITS" | .leadsto => "LEADSTO" | .comma => "COMMA" | .plus => "PLUS"
+  | .divide => "DIVIDE" | .power => "POWER"
+
+/-- compile a set of files: `files` = [[name, text] …], `root` = the file to start from -/
+def opCompile (j : Json) : R Json := do
+  let files ← jfield (jlist (fun e => do
+    match (← jarr e) with
+    | [n, t] => pure ((← jstr n), (← jstr t))
+    | _ => throw "bad file")) j "files"
+  let root ← jfield jstr j "root"
+  let look (n : String) : Option String := (files.find? (·.1 = n)).map (·.2)
+  match Mal.compileFile look 16 root with
+  | some s => pure (jO [("spec", cspecToJson s)])
+  | none => pure (jO [("error", jS "syntax")])
+
+def opLex (j : Json) : R Json := do
+  let src ← jfield jstr j "src"
+  match Mal.lex src with
+  | some ts => pure (jO [("tokens", jsonOfList (fun t => jS (tokName t)) ts)])
+  | none => pure (jO [("error", jS "lexer")])
+
 def dispatch (j : Json) : R Json := do
   let op ← jfield jstr j "op"
   match op with
@@ -460,6 +526,8 @@ def dispatch (j : Json) : R Json := do
   | "eval" => opEval j
   | "model_hist" => opModelHist j
   | "classes" => opClasses j
+  | "compile" => opCompile j
+  | "lex" => opLex j
   | "ser_model" => opSerModel j
   | "load_doc" => opLoadDoc j
   | _ => throw "bad-op"
